@@ -129,6 +129,11 @@ def _preimage(kind, arg, L):
         if L.accepts(""):
             out = out | ~SL.length_gt(m - 1)
         return out
+    if kind == "removeprefix":
+        # x.removeprefix(p) = x[len(p):] when x starts with p, else x itself
+        return concat(SL.lit(arg), L) | (L - SL.startswith(arg))
+    if kind == "removesuffix":
+        return concat(L, SL.lit(arg)) | (L - SL.endswith(arg))
     if kind in ("head", "tail"):
         c = SL.syms([arg])
         noc = ~contains_any_char(c)
@@ -393,6 +398,15 @@ class Eval:
                 if not isinstance(chars, str):
                     raise Unsupported("strip argument " + ast.unparse(x.args[0])[:40])
                 return c + ((x.func.attr, "".join(sorted(set(chars)))),)
+            if isinstance(x, ast.Call) and isinstance(x.func, ast.Attribute) and x.func.attr in ("removeprefix", "removesuffix") \
+                    and len(x.args) == 1 and not x.keywords:
+                c = chain_of(x.func.value)
+                if c is None:
+                    return None
+                p_ = self.conc(x.args[0])
+                if not isinstance(p_, str):
+                    raise Unsupported("removeprefix argument " + ast.unparse(x.args[0])[:40])
+                return c if p_ == "" else c + ((x.func.attr, p_),)
             if isinstance(x, ast.Subscript) and isinstance(x.slice, ast.Slice) and x.slice.step is None:
                 c = chain_of(x.value)
                 if c is None:
@@ -503,6 +517,8 @@ class Eval:
                 return reach & v.d
             if isinstance(v, Conc):
                 return reach if v.v else EMPTY
+            if isinstance(v, Str):
+                return reach - SL.EPSILON          # a string is true when it is not empty
             raise Unsupported("cond name " + e.id)
         if isinstance(e, ast.Compare) and len(e.ops) == 1:
             op, l, r = e.ops[0], e.left, e.comparators[0]
@@ -774,6 +790,22 @@ class Eval:
             else:
                 kind = self.argkind(e.args[0])
             if kind is None:
+                # a modelled transform of the string (strip, slice, removeprefix ...): the callee's outcome languages are
+                # pulled back through the transform
+                try:
+                    dv = self.derive(e.args[0])
+                except Unsupported:
+                    dv = None
+                if dv is not None and len(e.args) == 1 and not e.keywords:
+                    inner = self.callfn0(ast.Call(func=f, args=[ast.Name(id="$value", ctx=ast.Load())], keywords=[]))
+                    if inner is None:
+                        return None
+                    out = {k: pullback(dv.chain, inner[k]) for k in ("T", "F", "V", "E")}
+                    out["V"] = out["V"] | pullback(dv.chain, inner["ID"])
+                    out["ID"] = EMPTY
+                    if "NONE" in inner:
+                        out["NONE"] = pullback(dv.chain, inner["NONE"])
+                    return out
                 return None
         elif recv_is_str or (recv == "self" and isinstance(self.env.get("self"), Str)):
             kind = ("str",)
@@ -845,6 +877,9 @@ class Eval:
         try:
             return self.stmt0(s, reach)
         except Unsupported:
+            if self.ctx.options.get("$partial") and isinstance(s, (ast.For, ast.While, ast.If, ast.Try)):
+                # lower bounds only: what was decided before this statement stands, the rest is "some value"
+                return {"V": reach}
             if self.ctx.options.get("$lenient") and isinstance(s, (ast.Assign, ast.AugAssign, ast.AnnAssign, ast.Expr)):
                 # text-building statements of the writers (s = "{} = ".format(key.ljust(n)), s += ...) are not
                 # classified: the names they bind become UNKNOWN when they derive from the string under test (a later
